@@ -58,6 +58,43 @@ pub mod __fqsim {
         None
     }
 
+    /// Task management for threads the crate under test starts itself (`std::thread::spawn`,
+    /// scoped threads): `ctl(op, arg)`.
+    ///   TASK_IS       -> 1 if the calling thread is a simulated task
+    ///   TASK_SPAWN    -> token (> 0) of a new child task of the calling task, 0 if the caller is not a task
+    ///   TASK_ENTER    -> (child thread) binds the thread to task `arg` and waits for the baton
+    ///   TASK_EXIT     -> (child thread) the task `arg` has ended
+    ///   TASK_DONE     -> 1 if task `arg` has ended
+    ///   TASK_RAND     -> a seeded choice in 0..arg (0 for a non-task thread)
+    pub type Ctl = fn(u32, u64) -> u64;
+    pub const TASK_IS: u32 = 0;
+    pub const TASK_SPAWN: u32 = 1;
+    pub const TASK_ENTER: u32 = 2;
+    pub const TASK_EXIT: u32 = 3;
+    pub const TASK_DONE: u32 = 4;
+    pub const TASK_RAND: u32 = 5;
+
+    static CTL: AtomicUsize = AtomicUsize::new(0);
+
+    pub fn install_ctl(c: Ctl) {
+        CTL.store(c as usize, Ordering::SeqCst);
+    }
+
+    #[inline]
+    pub fn ctl(op: u32, arg: u64) -> u64 {
+        let p = CTL.load(Ordering::Relaxed);
+        if p != 0 {
+            let c: Ctl = unsafe { rcore::mem::transmute::<usize, Ctl>(p) };
+            return c(op, arg);
+        }
+        0
+    }
+
+    #[inline]
+    pub fn is_task() -> bool {
+        ctl(TASK_IS, 0) == 1
+    }
+
     /// Returns true if the simulator descheduled the caller (so retrying makes sense),
     /// false if the caller should fall back to really blocking.
     #[inline]
